@@ -199,3 +199,38 @@ Print Assumptions C02_vectors.
 Print Assumptions C02_strict.
 Print Assumptions C02_strict_block.
 Print Assumptions C02_reported_length.
+
+(* ---- typed extra field (added by the model-mutation audit, seed C02-e; notes/MODEL_MUTANTS_A.md) ------------------
+   Until here C02 spoke about Model/Codec.v only, where `extra` is an opaque Vec<u8>.  The sub-field codec of
+   Model/Extra.v round-trips too: every well-formed sub-field parses back from its encoding (followed by anything the
+   padding rule allows), and the consensus encoding of a well-formed ExtraField is a Vec<u8> that decodes to the
+   concatenated sub-field encodings, which try_parse turns back into the same sub-fields.
+   (Imported last: Proofs/ExtraProofs.v has its own wf_key, which must not shadow the one used above.) *)
+From MRS Require Import Proofs.AuditC02.
+
+Theorem C02_extra_subfield : forall valid_pk f r,
+  wf_subfield valid_pk f -> pad_ok f r -> dec_subfield valid_pk (enc_subfield f ++ r) = (Ok f, r).
+Proof. exact dec_subfield_complete. Qed.
+
+Theorem C02_extra : forall valid_pk fs r, wf_extra valid_pk fs ->
+  dec_bytes_vec (enc_extra fs ++ r) = (Ok (enc_fields fs), r) /\
+  try_parse valid_pk (enc_fields fs) = Ok (true, fs).
+Proof. exact audit_extra_consensus_roundtrip. Qed.
+
+(* non-vacuity / pin of the nonce length as a varint: 200 bytes take the two-byte count c8 01 *)
+Example C02_ex_nonce_len_is_varint :
+  firstn 3 (enc_subfield (Nonce (repeat x07 200))) = [x02; xc8; x01] /\
+  forall valid_pk r, dec_subfield valid_pk (enc_subfield (Nonce (repeat x07 200)) ++ r) = (Ok (Nonce (repeat x07 200)), r).
+Proof.
+  split; [vm_compute; reflexivity|]. intros valid_pk r. apply dec_subfield_complete; [|exact I].
+  cbn [wf_subfield]. vm_compute. discriminate.
+Qed.
+
+Check C02_extra_subfield : forall valid_pk f r,
+  wf_subfield valid_pk f -> pad_ok f r -> dec_subfield valid_pk (enc_subfield f ++ r) = (Ok f, r).
+Check C02_extra : forall valid_pk fs r, wf_extra valid_pk fs ->
+  dec_bytes_vec (enc_extra fs ++ r) = (Ok (enc_fields fs), r) /\
+  try_parse valid_pk (enc_fields fs) = Ok (true, fs).
+
+Print Assumptions C02_extra_subfield.
+Print Assumptions C02_extra.
